@@ -2,6 +2,7 @@ from datetime import datetime, timezone
 from typing import Any, Optional, TYPE_CHECKING
 from functools import lru_cache
 from math import copysign
+from numbers import Integral, Real
 
 from dliswriter.utils.internal.internal_enums import RepresentationCode
 
@@ -161,7 +162,8 @@ def write_struct(representation_code: RepresentationCode, value: Any) -> bytes:
         Value converted to bytes depending on representation_code and RP66 V1 spec.
     """
 
-    if isinstance(value, float):
+    if isinstance(value, Real) and not isinstance(value, Integral):
+        # (float, but also e.g. numpy.float32, which is not a subclass of float)
         # the sign is made a part of the cache key, because 0.0 and -0.0 compare equal, but are encoded differently
         return _write_struct(representation_code, value, copysign(1., value))
     if representation_code in (RepresentationCode.OBNAME, RepresentationCode.OBJREF):
